@@ -23,9 +23,11 @@ type WTxn struct {
 	iwatches  []*Watch // channels returned by InsertWatch in this transaction
 	undone    []*initReg
 	doneMarks []*initReg
-	result    *Snap // bound snapshot returned by Commit
-	finished  bool  // Commit or Abort has been invoked
-	done      bool  // Commit or Abort has returned
+	result    *Snap    // bound snapshot returned by Commit
+	refSnap   *Snap    // C02: committed state bound right after the transaction began ...
+	refAns    []answer // ... and the real answers it gave then
+	finished  bool     // Commit or Abort has been invoked
+	done      bool     // Commit or Abort has returned
 	ops       int
 }
 
@@ -88,7 +90,7 @@ func (w *World) beginWrite(t *simcore.Task, arg []int) *WTxn {
 			return wt
 		}
 		if rev != base.Rev || num != len(base.Objs) {
-			w.violate("C05", "stale-write-view", "T%d sees table %s at revision %d with %d objects; the latest transaction committed on it left revision %d with %d objects",
+			w.violate(w.attr("C05", "C09"), "stale-write-view", "T%d sees table %s at revision %d with %d objects; the latest transaction committed on it left revision %d with %d objects",
 				wt.id, tc.M.Name, rev, num, base.Rev, len(base.Objs))
 			return wt
 		}
@@ -98,6 +100,22 @@ func (w *World) beginWrite(t *simcore.Task, arg []int) *WTxn {
 		skip[ti] = true
 	}
 	wt.snap = w.bindSince(wt.txn, fmt.Sprintf("WriteTxn T%d", wt.id), skip, fl)
+	if w.P.AbortCheck && wt.snap != nil && !w.S.Failed() {
+		// reference for "as if it had never run": what the committed state answers now, before any write
+		pre := w.db.ReadTxn()
+		wt.refSnap = w.bind(pre, fmt.Sprintf("snapshot at the start of T%d", wt.id), nil)
+		if wt.refSnap != nil {
+			for _, ti := range wt.tables {
+				if ti < len(wt.refSnap.states) && wt.refSnap.states[ti] != nil {
+					rec, ok := w.recordAnswers("C02", pre, ti, wt.refSnap.states[ti], 4)
+					if !ok {
+						return wt
+					}
+					wt.refAns = append(wt.refAns, rec...)
+				}
+			}
+		}
+	}
 	return wt
 }
 
@@ -215,6 +233,17 @@ func (w *World) abort(t *simcore.Task, wt *WTxn) {
 			}
 		}
 	}
+	if w.P.AbortCheck && wt.refSnap != nil && refSnap != nil {
+		sameStart := true
+		for _, ti := range wt.tables {
+			if ti >= len(wt.refSnap.states) || ti >= len(refSnap.states) || wt.refSnap.states[ti] != refSnap.states[ti] {
+				sameStart = false
+			}
+		}
+		if sameStart && !w.sameAnswers("C02", "uncommitted-writes-visible", refSnap.txn, wt.refAns, fmt.Sprintf("T%d (open): committed state before its first write vs. right before its Abort", wt.id)) {
+			return
+		}
+	}
 	tx.abort = wt
 	t.Op = "Abort"
 	w.S.Logf("T%d Abort invoke", wt.id)
@@ -252,6 +281,18 @@ func (w *World) abort(t *simcore.Task, wt *WTxn) {
 			w.probe("abort-twin-compared")
 			if !w.sameAnswers("C02", "abort-left-trace", rtxn, ref, fmt.Sprintf("Abort of T%d", wt.id)) {
 				return
+			}
+			// ... and exactly what it answered before the transaction made its first write
+			if wt.refSnap != nil {
+				sameStart := true
+				for _, ti := range wt.tables {
+					if ti >= len(wt.refSnap.states) || wt.refSnap.states[ti] != sn.states[ti] {
+						sameStart = false
+					}
+				}
+				if sameStart && !w.sameAnswers("C02", "aborted-writes-visible", rtxn, wt.refAns, fmt.Sprintf("T%d (aborted): committed state before its first write vs. after its Abort", wt.id)) {
+					return
+				}
 			}
 			for _, ti := range wt.tables {
 				if sn.states[ti] != nil {
@@ -343,6 +384,10 @@ func (w *World) genObj(tc *TableCtx, st *TableState, txnID int) *Obj {
 			n := c.Choose(3)
 			for i := 0; i < n; i++ {
 				o.LN = append(o.LN, tc.Pfx[c.Choose(len(tc.Pfx))])
+			}
+			// many objects under one hot prefix: entries with long tails, inserts in the middle
+			if c.Choose(2) == 0 {
+				o.LN = append(o.LN, tc.Pfx[tc.HotPfx])
 			}
 		}
 	}
